@@ -114,7 +114,10 @@ def fresh_keys(rng, n):
 
 
 def add_bad_key(rng, keys):
-    keys[BAD] = (fresh_keys(rng, 1)[1][0], "not-a-hex-secret-%08x" % rng.getrandbits(32))
+    # a secret hex::decode rejects: odd length / a non-hex character / trailing blank
+    kind = rng.choice(["odd", "char", "blank"])
+    v = "%064x" % rng.getrandbits(256)
+    keys[BAD] = (fresh_keys(rng, 1)[1][0], {"odd": v[:-1], "char": v[:10] + "g" + v[11:], "blank": v + " "}[kind])
     return keys
 
 
@@ -590,7 +593,8 @@ def run(ctx):
     pkeys = fresh_keys(rng, 3)
     pkeys[0] = fresh_keys(rng, 1)[1]
     add_bad_key(rng, pkeys)
-    scripts = [([0, 1], [2]), ([0, 1], [None]), ([0, 1], [None, 2]), ([], [2]), ([0, 1], [BAD]), ([BAD], [2])]
+    pkeys[3] = (pkeys[3][0], "")        # the EMPTY secret hex-decodes (to no bytes): a usable key like any other
+    scripts = [([0, 1], [2]), ([0, 1], [None]), ([0, 1], [None, 2]), ([], [2]), ([0, 1], [BAD]), ([BAD], [2]), ([0, 1], [3])]
     if not ctx.quick:
         scripts += [([1], [2, 3]), ([1], [2, None]), ([0, 1], [BAD, 2])]
     cal = run_driver(ctx, exe, [json.dumps({"kind": "proxy", "pre": [op_json(1, pkeys)], "ops": [], "steps": None})], env, "proxied calibration")[0]
@@ -691,8 +695,9 @@ def run(ctx):
     # (forwarded_auth): the host must see exactly one value, the agent's
     clines, cmeta = [], []
     junk = "%064x" % rng.getrandbits(256)
-    for vals in (["Azure-HMAC-SHA256 %s %s" % (pkeys[1][0], junk)], ["Azure-HMAC-SHA256 %s %s" % (pkeys[3][0], junk)], ["Bearer c10"],
-                 ["Azure-HMAC-SHA256 %s %s" % (pkeys[1][0], junk), "Azure-HMAC-SHA256 %s %s" % (pkeys[2][0], junk)]):
+    for vals in (["Azure-HMAC-SHA256 %s %s" % (pkeys[1][0], junk)], ["Azure-HMAC-SHA256 %s %s" % (pkeys[0][0], junk)], ["Bearer c10"],
+                 [["X-MS-Azure-Host-Authorization", "Azure-HMAC-SHA256 %s %s" % (pkeys[2][0], junk)]],
+                 ["Azure-HMAC-SHA256 %s %s" % (pkeys[1][0], junk), ["x-MS-azure-HOST-authorization", "Azure-HMAC-SHA256 %s %s" % (pkeys[2][0], junk)]]):
         for st, exp in ((0, (2, 2)), (turns + 2, (1, 1))):
             clines.append(json.dumps({"kind": "proxy", "pre": [op_json(0, pkeys), op_json(1, pkeys)], "ops": [op_json(2, pkeys)], "steps": st, "client_auth": vals}))
             cmeta.append(exp)
